@@ -9,6 +9,7 @@ ASSUME ndJsonSerialize("scen_F4.ndjson", SetToSeq(F4))
 ASSUME ndJsonSerialize("scen_F5.ndjson", SetToSeq(F5))
 ASSUME ndJsonSerialize("scen_F6.ndjson", SetToSeq(F6))
 ASSUME ndJsonSerialize("scen_Probe.ndjson", <<Probe>>)
+ASSUME ndJsonSerialize("scen_Wait.ndjson", <<WaitScen>>)
 ASSUME PrintT(<<"SCENARIOS", Cardinality(F1), Cardinality(F2), Cardinality(F3), Cardinality(Multi), Cardinality(F4), Cardinality(F5), Cardinality(F6)>>)
 GInit == InitWith([c \in Conns |-> CHOOSE s \in Multi : TRUE])
 GNext == UNCHANGED vars
